@@ -222,7 +222,7 @@ func (e *Exec) intrinsic(fn *ssa.Function, args []value) value {
 	case "vPanics":
 		return mkI64(int64(len(e.panicsLogged)))
 	case "vExpvar":
-		key := argStr(args[0]) + "/" + argStr(args[1])
+		key := argStr(args[0]) + "/" + expvarKey(args[1])
 		if o := e.expvar[key]; o != nil {
 			return o.v
 		}
@@ -287,6 +287,9 @@ func (e *Exec) intrinsic(fn *ssa.Function, args []value) value {
 	if r, ok := e.promIntrinsic(fn.Name(), args); ok {
 		return r
 	}
+	if r, ok := e.fsIntrinsic(fn.Name(), args); ok {
+		return r
+	}
 	if e.lenient() {
 		res := fn.Signature.Results()
 		if res.Len() == 0 {
@@ -330,6 +333,31 @@ func (e *Exec) obsString(v value) string {
 type expvarObj struct {
 	name string
 	v    Int
+}
+
+// expvarInt resolves the receiver of an (*expvar.Int) method: a published
+// variable (expvar.NewInt) or a plain new(expvar.Int), which is its own store.
+func (e *Exec) expvarInt(recv value) *expvarObj {
+	p := recv.(*value)
+	if s, ok := (*p).(string); ok {
+		return e.expvarGet(strings.TrimPrefix(s, "int:") + "/")
+	}
+	if e.expvarAnon == nil {
+		e.expvarAnon = map[*value]*expvarObj{}
+	}
+	o := e.expvarAnon[p]
+	if o == nil {
+		o = &expvarObj{name: "<anonymous>", v: mkI64(0)}
+		e.expvarAnon[p] = o
+	}
+	return o
+}
+
+func expvarKey(v value) string {
+	if s, ok := v.(string); ok {
+		return s
+	}
+	return "<symbolic>"
 }
 
 func (e *Exec) expvarGet(key string) *expvarObj {
@@ -529,29 +557,38 @@ func init() {
 	stubs["expvar.Publish"] = nop
 	stubs["(*expvar.Map).Add"] = func(e *Exec, fn *ssa.Function, args []value) value {
 		name := strings.TrimPrefix((*args[0].(*value)).(string), "map:")
-		key := args[1]
-		ks, ok := key.(string)
-		if !ok {
-			panic(inconclusive{"expvar.Map.Add with symbolic key"})
-		}
-		o := e.expvarGet(name + "/" + ks)
+		// a symbolic key (a program named by symbolic bytes) is accounted
+		// under one bucket: at most one such name exists per path
+		o := e.expvarGet(name + "/" + expvarKey(args[1]))
 		o.v = intBinop(token.ADD, o.v, args[2].(Int)).(Int)
 		return nil
 	}
 	stubs["(*expvar.Int).Add"] = func(e *Exec, fn *ssa.Function, args []value) value {
-		name := strings.TrimPrefix((*args[0].(*value)).(string), "int:")
-		o := e.expvarGet(name + "/")
+		o := e.expvarInt(args[0])
 		o.v = intBinop(token.ADD, o.v, args[1].(Int)).(Int)
 		return nil
 	}
 	stubs["(*expvar.Int).Set"] = func(e *Exec, fn *ssa.Function, args []value) value {
-		name := strings.TrimPrefix((*args[0].(*value)).(string), "int:")
-		e.expvarGet(name + "/").v = args[1].(Int)
+		e.expvarInt(args[0]).v = args[1].(Int)
 		return nil
 	}
 	stubs["(*expvar.Int).Value"] = func(e *Exec, fn *ssa.Function, args []value) value {
-		name := strings.TrimPrefix((*args[0].(*value)).(string), "int:")
-		return e.expvarGet(name + "/").v
+		return e.expvarInt(args[0]).v
+	}
+	// Map.Set replaces the entry by the given variable
+	stubs["(*expvar.Map).Set"] = func(e *Exec, fn *ssa.Function, args []value) value {
+		name := strings.TrimPrefix((*args[0].(*value)).(string), "map:")
+		key := name + "/" + expvarKey(args[1])
+		v := args[2].(iface)
+		p, ok := v.v.(*value)
+		if !ok || p == nil {
+			panic(inconclusive{"expvar.Map.Set with a variable that is not an *expvar.Int"})
+		}
+		if _, seen := e.expvar[key]; !seen {
+			e.expvarOrder = append(e.expvarOrder, key)
+		}
+		e.expvar[key] = e.expvarInt(p)
+		return nil
 	}
 	stubs["(*expvar.Int).String"] = func(e *Exec, fn *ssa.Function, args []value) value { return "<expvar>" }
 
